@@ -19,6 +19,36 @@ type Sm = Smart<Payload, hipstr::Arc>;
 
 static VERBOSE: AtomicBool = AtomicBool::new(false);
 
+/// `location: message` of the FIRST panic since the last `run_program` started (set by the
+/// panic hook, which otherwise stays silent).
+static FIRST_PANIC: StdMutex<Option<String>> = StdMutex::new(None);
+
+/// Installs the panic hook: records where the first panic happened (the payload alone does not
+/// say that `attempt to add with overflow` comes from `src/smart.rs`), prints only if `verbose`.
+pub fn install_panic_hook(verbose: bool) {
+    std::panic::set_hook(Box::new(move |info| {
+        let loc = info
+            .location()
+            .map(|l| format!("{}:{}:{}", l.file(), l.line(), l.column()))
+            .unwrap_or_else(|| "<unknown>".into());
+        let msg = if let Some(s) = info.payload().downcast_ref::<&str>() {
+            (*s).to_string()
+        } else if let Some(s) = info.payload().downcast_ref::<String>() {
+            s.clone()
+        } else {
+            "<non-string panic payload>".to_string()
+        };
+        let first = msg.trim().lines().next().unwrap_or("").to_string();
+        if verbose {
+            eprintln!("panicked at {loc}: {first}");
+        }
+        let mut slot = FIRST_PANIC.lock().unwrap_or_else(|e| e.into_inner());
+        if slot.is_none() {
+            *slot = Some(format!("panicked at {loc}: {first}"));
+        }
+    }));
+}
+
 pub fn set_verbose(v: bool) {
     VERBOSE.store(v, StdOrd::Relaxed);
 }
@@ -574,7 +604,7 @@ fn run_once(prog: &Prog, sink: &Sink) {
 #[derive(Clone, Debug)]
 pub struct LoomResult {
     /// ok | race | double-free | use-after-free | leak | content | unique-while-shared |
-    /// count-mismatch | freed-while-alive |
+    /// count-mismatch | freed-while-alive | panic |
     /// deadlock | branch-limit | error
     pub verdict: String,
     /// outcome string -> number of executions that produced it
@@ -611,8 +641,12 @@ fn classify(msg: &str) -> &'static str {
         "deadlock"
     } else if msg.contains("exceeded maximum number of branches") {
         "branch-limit"
-    } else {
+    } else if msg.contains("HIPVERIF internal") || msg.contains("[loom internal bug]") {
         "error"
+    } else {
+        // a panic of the implementation itself (e.g. `attempt to add with overflow` in
+        // `Arc::get` called from `decr` inside `Smart::drop`)
+        "panic"
     }
 }
 
@@ -628,6 +662,7 @@ pub fn is_monitor(verdict: &str) -> bool {
             | "unique-while-shared"
             | "count-mismatch"
             | "freed-while-alive"
+            | "panic"
     )
 }
 
@@ -652,6 +687,7 @@ pub fn run_program(prog: &Prog, bound: Option<usize>, budget: Option<Duration>) 
     let s = sink.clone();
     // loom 0.7.2's mpsc `recv` contains a stray `dbg!`: silence stderr while the model runs
     let gag = if VERBOSE.load(StdOrd::Relaxed) { None } else { gag::Gag::new() };
+    *FIRST_PANIC.lock().unwrap_or_else(|e| e.into_inner()) = None;
     let start = Instant::now();
     let res = catch_unwind(AssertUnwindSafe(move || {
         b.check(move || run_once(&p, &s));
@@ -670,7 +706,11 @@ pub fn run_program(prog: &Prog, bound: Option<usize>, budget: Option<Duration>) 
                 "<non-string panic payload>".to_string()
             };
             let first = msg.trim().lines().next().unwrap_or("").to_string();
-            (classify(&msg).to_string(), Some(first))
+            let kind = classify(&msg);
+            let located = FIRST_PANIC.lock().unwrap_or_else(|e| e.into_inner()).take();
+            // for a panic of the implementation the location is the interesting part
+            let shown = if kind == "panic" || kind == "error" { located.unwrap_or(first) } else { first };
+            (kind.to_string(), Some(shown))
         }
     };
     let truncated = verdict == "ok" && budget.map_or(false, |d| elapsed >= d);
@@ -683,6 +723,71 @@ pub fn run_program(prog: &Prog, bound: Option<usize>, budget: Option<Duration>) 
         truncated,
         message,
         note: None,
+    }
+}
+
+/// Global allocator with a small QUARANTINE for blocks that have the layout of the counted
+/// box (`Inner<Payload, Arc>`): their deallocation is delayed (ring of `SLOTS` blocks, content
+/// left intact).  A buggy counter may touch the box shortly after it has been freed (e.g. a
+/// debug-only counter re-read after the decrement); the loom atomic inside is only an index
+/// into loom's object store, so with the memory still intact loom executes that access
+/// deterministically (and e.g. returns the wrapped count) instead of reading whatever the
+/// system allocator wrote into the freed chunk.
+pub mod quarantine {
+    use std::alloc::{GlobalAlloc, Layout, System};
+    use std::sync::atomic::{AtomicBool, AtomicPtr, AtomicUsize, Ordering};
+
+    const SLOTS: usize = 64;
+    const INNER: Layout = Layout::new::<hipstr::verif::Inner<super::Payload, hipstr::Arc>>();
+
+    pub struct Alloc;
+
+    static LOCK: AtomicBool = AtomicBool::new(false);
+    static POS: AtomicUsize = AtomicUsize::new(0);
+    #[allow(clippy::declare_interior_mutable_const)]
+    const NULL: AtomicPtr<u8> = AtomicPtr::new(std::ptr::null_mut());
+    static RING: [AtomicPtr<u8>; SLOTS] = [NULL; SLOTS];
+
+    unsafe impl GlobalAlloc for Alloc {
+        unsafe fn alloc(&self, layout: Layout) -> *mut u8 {
+            unsafe { System.alloc(layout) }
+        }
+
+        unsafe fn dealloc(&self, ptr: *mut u8, layout: Layout) {
+            if layout != INNER {
+                return unsafe { System.dealloc(ptr, layout) };
+            }
+            while LOCK.compare_exchange_weak(false, true, Ordering::Acquire, Ordering::Relaxed).is_err() {
+                std::hint::spin_loop();
+            }
+            let pos = POS.load(Ordering::Relaxed);
+            let old = RING[pos].swap(ptr, Ordering::Relaxed);
+            POS.store((pos + 1) % SLOTS, Ordering::Relaxed);
+            LOCK.store(false, Ordering::Release);
+            if !old.is_null() {
+                unsafe { System.dealloc(old, layout) };
+            }
+        }
+
+        unsafe fn alloc_zeroed(&self, layout: Layout) -> *mut u8 {
+            unsafe { System.alloc_zeroed(layout) }
+        }
+
+        unsafe fn realloc(&self, ptr: *mut u8, layout: Layout, new_size: usize) -> *mut u8 {
+            if layout != INNER {
+                return unsafe { System.realloc(ptr, layout, new_size) };
+            }
+            // (never happens for a Box) allocate-copy-quarantine
+            let new_layout = unsafe { Layout::from_size_align_unchecked(new_size, layout.align()) };
+            let new_ptr = unsafe { System.alloc(new_layout) };
+            if !new_ptr.is_null() {
+                unsafe {
+                    std::ptr::copy_nonoverlapping(ptr, new_ptr, layout.size().min(new_size));
+                    self.dealloc(ptr, layout);
+                }
+            }
+            new_ptr
+        }
     }
 }
 
